@@ -1,10 +1,30 @@
-//! Engine registry: one engine per property.
+//! Engine registry: one engine per property (file `cNN.rs`). This file never needs editing when
+//! an engine changes: each engine exports `run`, `check_case` (replay of one case) and `workers`.
 
 use crate::fw::{Ctx, EngineResult, Violation};
 use crate::iso::WorkerFn;
 use serde_json::Value;
 
+pub mod c01;
+pub mod c02;
+pub mod c03;
+pub mod c04;
+pub mod c05;
+pub mod c06;
+pub mod c07;
+pub mod c08;
+pub mod c09;
+pub mod c10;
+pub mod c11;
 pub mod c12;
+pub mod c13;
+pub mod c14;
+pub mod c15;
+pub mod c16;
+pub mod c17;
+pub mod c18;
+pub mod c19;
+pub mod c20;
 
 pub struct Engine {
     pub prop: &'static str,
@@ -14,9 +34,51 @@ pub struct Engine {
 }
 
 pub fn engines() -> Vec<Engine> {
-    vec![Engine { prop: "C12", run: c12::run, replay: c12::check_case }]
+    vec![
+        Engine { prop: "C01", run: c01::run, replay: c01::check_case },
+        Engine { prop: "C02", run: c02::run, replay: c02::check_case },
+        Engine { prop: "C03", run: c03::run, replay: c03::check_case },
+        Engine { prop: "C04", run: c04::run, replay: c04::check_case },
+        Engine { prop: "C05", run: c05::run, replay: c05::check_case },
+        Engine { prop: "C06", run: c06::run, replay: c06::check_case },
+        Engine { prop: "C07", run: c07::run, replay: c07::check_case },
+        Engine { prop: "C08", run: c08::run, replay: c08::check_case },
+        Engine { prop: "C09", run: c09::run, replay: c09::check_case },
+        Engine { prop: "C10", run: c10::run, replay: c10::check_case },
+        Engine { prop: "C11", run: c11::run, replay: c11::check_case },
+        Engine { prop: "C12", run: c12::run, replay: c12::check_case },
+        Engine { prop: "C13", run: c13::run, replay: c13::check_case },
+        Engine { prop: "C14", run: c14::run, replay: c14::check_case },
+        Engine { prop: "C15", run: c15::run, replay: c15::check_case },
+        Engine { prop: "C16", run: c16::run, replay: c16::check_case },
+        Engine { prop: "C17", run: c17::run, replay: c17::check_case },
+        Engine { prop: "C18", run: c18::run, replay: c18::check_case },
+        Engine { prop: "C19", run: c19::run, replay: c19::check_case },
+        Engine { prop: "C20", run: c20::run, replay: c20::check_case },
+    ]
 }
 
 pub fn workers() -> Vec<(&'static str, WorkerFn)> {
-    vec![("c12_nest", c12::worker_nest as WorkerFn)]
+    let mut v = Vec::new();
+    v.extend(c01::workers());
+    v.extend(c02::workers());
+    v.extend(c03::workers());
+    v.extend(c04::workers());
+    v.extend(c05::workers());
+    v.extend(c06::workers());
+    v.extend(c07::workers());
+    v.extend(c08::workers());
+    v.extend(c09::workers());
+    v.extend(c10::workers());
+    v.extend(c11::workers());
+    v.extend(c12::workers());
+    v.extend(c13::workers());
+    v.extend(c14::workers());
+    v.extend(c15::workers());
+    v.extend(c16::workers());
+    v.extend(c17::workers());
+    v.extend(c18::workers());
+    v.extend(c19::workers());
+    v.extend(c20::workers());
+    v
 }
